@@ -235,7 +235,7 @@ class _init_temp(Contract):
 
 @contract(_CS + "_cleanup_temp_storage")
 class _cleanup_temp(Contract):
-    """C15: the temporary file is closed and removed (after fix 3d14429); the primary file is not touched"""
+    """C15/C13: the temporary file is closed and removed (after fix 3d14429), a failure to do so is raised, not swallowed; the primary file is not touched"""
     params = dict(self=CSV)
     modifies = ALLG + ("_temp_handle",)
     theories = ("cat",)
@@ -246,7 +246,8 @@ class _cleanup_temp(Contract):
     def ensures(c):
         had = o_is_some(f(c.old, "_temp_handle"))
         return [("no_temp_handle", o_is_none(f(c, "_temp_handle"))), ("primary_untouched", unchanged(c, *PRIM_FIELDS)),
-                ("temp_file_removed_unless_an_io_error_was_injected", z3.Implies(z3.And(had, z3.Not(FAULT(c))), z3.Not(f(c, "t_exists")))),
+                ("no_fault_swallowed", FAULT(c) == FAULT(c.old)),  # C13: returning normally means every I/O call of this cleanup succeeded (it also runs after a failed operation)
+                ("temp_file_removed", z3.Implies(had, z3.Not(f(c, "t_exists")))),
                 ("nothing_created", z3.Implies(z3.Not(had), unchanged(c, "t_exists")))]
 
 
@@ -308,3 +309,14 @@ def _keep_format(con):
 for _q, _con in list(S.REGISTRY.items()):
     if _q.startswith(_CS) and _q != _CS + "_swap_temp_with_primary" and "h_same_format" in getattr(_con, "modifies", ()):
         _keep_format(_con)
+
+
+# C13, stated once for every method: a normal return means that no I/O call of the method failed (nothing is swallowed)
+def _no_swallow(con):
+    orig = con.ensures
+    con.ensures = staticmethod(lambda c, orig=orig: list(orig(c)) + [("no_io_error_swallowed", FAULT(c) == FAULT(c.old))])
+
+
+for _q, _con in list(S.REGISTRY.items()):
+    if _q.startswith(_CS) and "faulted" in getattr(_con, "modifies", ()):
+        _no_swallow(_con)
